@@ -178,11 +178,13 @@ func Balance$1 returns (err)
   props C03 C08 C09 C10 C17
   refines utils.ResolvedCallback
   modifies *
+  captured logStream != nil
   captured bc.ReporterConfig.Output != nil && !typeis(bc.ReporterConfig.Output, "*bufio.Writer") && !typeis(bc.ReporterConfig.Output, "*encoding/csv.Writer")
   defines CbOut(self) == payload(bc.ReporterConfig.Output) && CbLog(self) == payload(logStream) && CbCC(self) == bc.ParserConfig.CommentChar
 
 func Balance returns (err)
   props C03 C08 C09 C10 C17
+  requires @streams logStream != nil && dbStream != nil
   requires @sink bc.ReporterConfig.Output != nil && !typeis(bc.ReporterConfig.Output, "*bufio.Writer") && !typeis(bc.ReporterConfig.Output, "*encoding/csv.Writer") && TreeInv()
   modifies *
   modifies ghost(cbLen, cbErr, cbNode, cbStop, cbRet, cbLineNo, cbLine, cbHeader, cbElems, cbNElems, scRd, scPos, privLo, evOf, accKey, accP, accN, accH, bufSink, bufSticky, sinkFailed, sinkPend, prLen, prSink, prArg, prArgs, csvLen, csvW, csvN, csvRow, tnodes, tdepth, tmax, tmapOf, jlen)
